@@ -1,7 +1,7 @@
 """C07 — Routing-table structural invariants."""
 import re
 
-from analysis import (reachable_flags, constant_discriminant_edges, Prov, Guards, FlagEngine, fmt, fmt_short, walk, roots, short, comparison, find_calls, callee_matches,
+from analysis import (fullness_test, test_edges, option_edges, reachable_flags, constant_discriminant_edges, Prov, Guards, FlagEngine, fmt, fmt_short, walk, roots, short, comparison, find_calls, callee_matches,
                       must_pass, const_int_of, propagate)
 from facts import AnchorError, strip_closure
 from harness import Rule, guarded
@@ -61,7 +61,7 @@ def r1(ctx):
             continue
         rule.analysed(b)
         g = Guards(b, p, facts)
-        not_full = bool_pass_edges(g, lambda e: e[0] == "call" and short(e[1]).endswith("ArrayVec::is_full") and fmt_short(e[2][0]) == "self.nodes", want_true=False)
+        not_full = test_edges(g, fullness_test, lambda x: fmt_short(x) == "self.nodes", want=False)
         rs = [bi for bi, _ in node_removes(b, p)]
         name = pth.split("::")[-1]
         for bi, t in ws:
@@ -140,11 +140,7 @@ def r3(ctx):
     rule.analysed(b)
     p = Prov(b, facts)
     g = Guards(b, p, facts)
-    absent = bool_pass_edges(g, lambda e: e[0] == "call" and short(e[1]).endswith("Option::is_some") and fmt_short(e[2][0]) == "KBucket::position(self, node.key)", want_true=False)
-    absent += bool_pass_edges(g, lambda e: e[0] == "call" and short(e[1]).endswith("Option::is_none") and fmt_short(e[2][0]) == "KBucket::position(self, node.key)", want_true=True)
-    for bi, t, e in g.switches():
-        if e[0] == "discr" and fmt_short(e[1]) == "KBucket::position(self, node.key)":
-            absent += [(bi, s_) for s_ in t.succs() if s_ not in [tb for v, tb in t.vals if v == 1]]
+    _some, absent = option_edges(g, lambda x: fmt_short(x) == "KBucket::position(self, node.key)")
     ws = node_writes(b, p)
     pend_some, pend_none = [], []
     for blk in b.blocks:
@@ -158,8 +154,8 @@ def r3(ctx):
                "KBucket::insert adds a node or a pending node only if position(&node.key) is None", "insert|duplicate",
                "KBucket::insert can add a node whose key is already in the bucket", loc=b.loc(b.line))
     # pending only when full, no pending, not all connected
-    full = bool_pass_edges(g, lambda e: e[0] == "call" and short(e[1]).endswith("ArrayVec::is_full") and fmt_short(e[2][0]) == "self.nodes", want_true=True)
-    nopend = bool_pass_edges(g, lambda e: e[0] == "call" and short(e[1]).endswith("Option::is_some") and fmt_short(e[2][0]) == "self.pending", want_true=False)
+    full = test_edges(g, fullness_test, lambda x: fmt_short(x) == "self.nodes", want=True)
+    _hasp, nopend = option_edges(g, lambda x: fmt_short(x) == "self.pending")
     for nm, edges, msg in (("full", full, "a bucket that is not full"), ("no-pending", nopend, "a bucket that already has a pending node (it would be overwritten)")):
         r = b.reachable(0, removed_edges=edges)
         rule.check(bool(edges) and pend_some and not any(x in r for x in pend_some), "a pending node is created only past %s" % nm, "insert|pending-%s" % nm,
@@ -175,6 +171,16 @@ def r3(ctx):
     for bi, t, e in g.switches():
         if any(x[0] == "call" and short(x[1]).endswith("Option::unwrap_or_default") and "self.pending" in fmt_short(x) for x in walk(e)) and e[0] != "discr":
             flag_edges.append((bi, g.bool_edges(bi)[1]))
+        elif e[0] != "discr":
+            # the same flag computed with a `match` / `if let`: false when there is no pending node, else pending.node.key == node.key
+            alts = e[1] if e[0] == "phi" else (e,)
+            cmps = [comparison(a) for a in alts if const_int_of(a) != 0]
+            if cmps and all(c and c[0] == "==" and {fmt_short(c[1]).split(".", 1)[-1] if "pending" in fmt_short(c[1]) else fmt_short(c[1]),
+                                                    fmt_short(c[2]).split(".", 1)[-1] if "pending" in fmt_short(c[2]) else fmt_short(c[2])} >= {"node.key"} and
+                            any("self.pending" in fmt_short(x) for x in (c[1], c[2])) for c in cmps) and any(const_int_of(a) == 0 for a in alts):
+                same_key = True
+                if (bi, g.bool_edges(bi)[1]) not in flag_edges:
+                    flag_edges.append((bi, g.bool_edges(bi)[1]))
     okk = same_key and bool(flag_edges) and bool(pend_none)
     if okk:
         # on the flag-true edge after a successful insertion the slot is cleared on every path
@@ -204,7 +210,7 @@ def r3(ctx):
 def r4(ctx):
     facts = ctx.facts
     rule = Rule("C07.R4", "pending life cycle: applied only after its timeout, evicting nodes[0] only if disconnected; reconnecting nodes[0] drops the pending node",
-                floor=5, engine="A-dom")
+                floor=6, engine="A-dom")
     b = facts.one(re.escape(KB + "apply_pending"))
     rule.analysed(b)
     p = Prov(b, facts)
@@ -294,6 +300,18 @@ def r4(ctx):
             if cl not in fe.index:
                 # is_connected is computed, not a constant flag: fall back to path-insensitive must-pass on the pos==0 edge
                 ok = bool(clears) and any(c_ in us.reachable(tr) for c_ in clears)
+    # recency order: a status report for a stored node always takes it out of its position (and re-inserts it at the end of its group) -
+    # each group is ordered by the time of the last report, and nodes[0] is the one that gets challenged / evicted
+    _present, _absent = option_edges(g, lambda x: fmt_short(x) == "KBucket::position(self, key)")
+    takes = node_removes(us, p)
+    okr = bool(_present) and bool(takes)
+    for sb, tgt in _present:
+        rr = us.reachable(tgt, removed_blocks=[bi for bi, _ in takes])
+        if any(x in rr for x in us.return_blocks()):
+            okr = False
+    rule.check(okr, "update_status: every report for a stored node removes it from its position first (then re-inserts it last in its group)", "update_status|recency-not-refreshed",
+               "update_status can return for a stored node without moving it: a node whose status was just reported keeps its old place, so the order of a group no longer "
+               "follows the time of the last report and the wrong node is treated as least recently active", loc=us.loc(us.line))
     rule.check(ok, "update_status: when nodes[0] becomes connected the pending node is dropped before the node is re-inserted", "update_status|pending-kept",
                "update_status can leave the pending node in place although the least-recently-active node re-established its connection (it would be evicted)", loc=us.loc(us.line))
     return rule
